@@ -55,7 +55,7 @@ def judge(ctx, step, obs_path, mode="judge", keep=5):
         if (wd / f).exists():
             (wd / f).unlink()
     rig.write_cfg(wd / "Trace_FilesFS.cfg", constants={"Mode": mode, "KeepPerCause": keep}, invariants=["Done"], postcondition="Consumed")
-    r = ctx.tlc(wd, "Trace_FilesFS", workers=1, timeout=1500, heap="4g")
+    r = ctx.tlc(wd, "Trace_FilesFS", workers=1, timeout=1500, heap="3g")
     if not r.ok or not (wd / "bad.ndjson").exists() or not (wd / "stats.ndjson").exists():
         raise Infra(f"Trace_FilesFS ({mode}) did not complete cleanly: {wd}/Trace_FilesFS.out\n" + rig.tail(r.out, 25))
     return rig.read_ndjson(wd / "bad.ndjson"), rig.read_ndjson(wd / "stats.ndjson")[0]
@@ -211,7 +211,7 @@ def run(ctx, replay_case=None):
     consts = {"Large": not ctx.quick, "MaxFiles": ctx.pick(3, 4), "FullOps": 2, "MaxOps": ctx.pick(3, 4), "DeepOps": ctx.pick(3, 5)}
     # several TLC processes run side by side: keep each JVM's collector small (inherited by ctx.tlc's subprocess)
     os.environ["JAVA_TOOL_OPTIONS"] = "-XX:ParallelGCThreads=2 -XX:CICompilerCount=2"
-    pool = ThreadPoolExecutor(max_workers=ctx.pick(8, 12))
+    pool = ThreadPoolExecutor(max_workers=ctx.pick(8, 10))
     obs = ctx.work / "obs.ndjson"
     bg = {}
     if replay_case is not None:
@@ -242,7 +242,7 @@ def run(ctx, replay_case=None):
                    rule="every tree x probe name x operation sequence exported by TLC (exhaustive within the bounds) plus seeded random trees (depth <=3, dotted/Unicode names, empty files, <=6 files) with up to 8 operations; non-trivial = a Read returned bytes or a ReadDir returned entries",
                    exhaustive=True)
     del nontriv
-    nsh = max(1, min(ctx.pick(6, 10), n // 6000))
+    nsh = max(1, min(ctx.pick(6, 8), n // 6000))
     size = max(1, (n + nsh - 1) // nsh)
     futs = [pool.submit(judge_lines, ctx, f"trace_{i}", lines[k:k + size]) for i, k in enumerate(range(0, max(n, 1), size))]
     det = [ln for ln in lines if obs_id(ln) < 1000000000]      # the cases exported by TLC (not the seeded random ones)
